@@ -137,6 +137,19 @@ def select1(ctx: Ctx, chk) -> None:
         raise AnalysisError("SELECT-1: get_protocol is neither `next((table[k] for k in <order> if <pred>), default)` nor `for k in <order>: if <pred>: return table[k]` + fallback")
     kname = gen.kname
 
+    def deref(e):
+        """Look through locals bound once (`known = sorted(TABLE, reverse=True)` ... `for k in known`)."""
+        for _ in range(4):
+            if isinstance(e, ast.Name) and e.id not in f.params:
+                la = I.local_assigns(f).get(e.id) or []
+                if len(la) == 1 and isinstance(la[0], ast.expr):
+                    e = la[0]
+                    continue
+            break
+        return e
+
+    gen.iter, gen.default, gen.elt = deref(gen.iter), deref(gen.default), deref(gen.elt)
+
     class _G:
         pass
 
